@@ -2,19 +2,18 @@
 
    Proved here (about the VM model, whose report text is compared byte for
    byte — addresses of contexts masked — with the real report on every run):
-   the report starts with the name of the error class that Run returns, class
-   names are pairwise distinct, and the report is a total function of the
-   machine state (producing it cannot fail).  NOT proved: that the marked
-   instruction and the listed frames are the failing instruction and the
-   active calls ([C19_report_points_at_failure_statement], open); the check
-   decides that with programs whose failing operator, operand values and call
-   chain are known by construction. *)
-Require Import Calc.Base Calc.Bytecode Calc.Value Calc.FloatText Calc.Ast Calc.Compile Calc.VM.
+   an error is always attributed to the instruction being executed, in the
+   context executing it (every one of the error sites of [step], all opcodes);
+   for the binary operators the operands listed are the two fetched operands
+   and the class is what the operator says about exactly these; the report
+   lists the code that ran, marks the failing instruction and no other line,
+   with the operand values on the marked line; Run returns that report and a
+   reset machine; the report starts with the name of the error class and class
+   names are pairwise distinct.  NOT proved: that the frames section lists the
+   active calls (decided by the check with programs whose call chain is known
+   by construction). *)
+Require Import Calc.Base Calc.Bytecode Calc.Value Calc.FloatText Calc.Ast Calc.Compile Calc.VM Calc.StepErr.
 Open Scope Z_scope.
-
-Definition C19_report_points_at_failure_statement : Prop :=
-  forall v r retResult v' cid ip e vals,
-    step v r retResult = SErr v' cid ip e vals -> ip = r_ip r /\ cid = r_ctx r.
 
 Lemma prefix_app a b : String.prefix a (a +++ b) = true.
 Proof. induction a as [|c a IH]; cbn; [destruct b; reflexivity|]. rewrite IH. destruct (Ascii.ascii_dec c c); [reflexivity|congruence]. Qed.
@@ -33,3 +32,43 @@ Print Assumptions C19_report_names_the_class.
 Theorem C19_class_names_distinct : forall e f, err_text e = err_text f -> e = f.
 Proof. intros [] []; cbn; intros H; try reflexivity; discriminate. Qed.
 Print Assumptions C19_class_names_distinct.
+
+(* ---- the failing instruction ---- *)
+Theorem C19_error_attributed_to_executing_instruction : forall v r retResult v' cid ip e vals,
+  step v r retResult = SErr v' cid ip e vals -> ip = r_ip r /\ cid = r_ctx r.
+Proof. exact step_err_ip. Qed.
+Print Assumptions C19_error_attributed_to_executing_instruction.
+
+Theorem C19_binop_report_lists_the_operands : forall v r b v' cid ip e vals instr,
+  znth (v_cs v) (r_ip r) = Some instr -> is_binop (OpCode instr) = true ->
+  step v r b = SErr v' cid ip e vals ->
+  exists x1 x0, vals = [x1; x0] /\ apply_binop (OpCode instr) x1 x0 = Fail e.
+Proof. exact step_err_binop. Qed.
+Print Assumptions C19_binop_report_lists_the_operands.
+
+Theorem C19_report_marks_the_failing_instruction : forall v cid ip e vals w,
+  0 <= ip < v_ncs v -> znth (v_cs v) ip = Some w ->
+  exists before after,
+    report_text v cid ip e vals =
+      "RUNTIME ERROR : " +++ err_text e +++ sb [10] +++
+      (String.concat "" (map (listing_line v ip (sconcat ", " (map (abbrev fmt_float) vals))) before) +++
+       ("--> " +++ itoa ip +++ ": " +++ instr_string w +++ "; " +++ sconcat ", " (map (abbrev fmt_float) vals) +++ sb [10]) +++
+       String.concat "" (map (listing_line v ip (sconcat ", " (map (abbrev fmt_float) vals))) after)) +++
+      dump_ctx_chain ctx_fuel v cid /\
+    ~ In ip before /\ ~ In ip after.
+Proof. exact report_marks_the_failing_instruction. Qed.
+Print Assumptions C19_report_marks_the_failing_instruction.
+
+Theorem C19_run_reports_the_failing_step : forall fuel v r b v1 e rep,
+  run_loop fuel v r b = (v1, RError e rep) ->
+  exists vm0 r0 v' vals w before after,
+    step vm0 r0 b = SErr v' (r_ctx r0) (r_ip r0) e vals /\
+    znth (v_cs vm0) (r_ip r0) = Some w /\
+    rep = "RUNTIME ERROR : " +++ err_text e +++ sb [10] +++
+          (String.concat "" (map (listing_line v' (r_ip r0) (sconcat ", " (map (abbrev fmt_float) vals))) before) +++
+           ("--> " +++ itoa (r_ip r0) +++ ": " +++ instr_string w +++ "; " +++ sconcat ", " (map (abbrev fmt_float) vals) +++ sb [10]) +++
+           String.concat "" (map (listing_line v' (r_ip r0) (sconcat ", " (map (abbrev fmt_float) vals))) after)) +++
+          dump_ctx_chain ctx_fuel v' (r_ctx r0) /\
+    ~ In (r_ip r0) before /\ ~ In (r_ip r0) after /\ v1 = reset_after_error v'.
+Proof. exact run_error_report_marks_failing_step. Qed.
+Print Assumptions C19_run_reports_the_failing_step.
